@@ -14,6 +14,7 @@ PREFIXES = ["C08.", "Any.Crash"]
 def run(chk):
     cerlib.run_config(chk, "C08", PREFIXES)
     cerlib.run_config(chk, "C08client", PREFIXES)
+    cerlib.run_config(chk, "Rebuild", PREFIXES)      # credentials made with / without counters, used under the other configuration
     cerlib.random_histories(chk, PREFIXES, quick_n=100)
     cerlib.finish_cov(chk, "one behaviour per (starting counters of two credentials, sequence of 1..3 ceremonies); non-trivial = reaches a prompt or store call",
                       False, "bounded histories (<= 3 ceremonies, 2 credentials), exhaustive within the bound")
